@@ -15,6 +15,7 @@
 //!   or the exact value; the silently truncated value is finding F-11b.
 //! * A `none` CtOption / ConstCtOption carries an unspecified value: never inspected.
 
+mod extra;
 mod gens;
 
 use crypto_bigint::{
@@ -707,5 +708,6 @@ fn subchecks(ctx: &Ctx) -> Vec<SubCheck> {
         per_width!(v, "mul+square", 10_000, mul_eq_case, 40; 5, 32);
         per_width!(v, "sign+abs", 20_000, sign_case, 32; 5, 32);
     }
+    v.extend(extra::subchecks(ctx));
     v
 }
